@@ -22,35 +22,36 @@ namespace HdVerif.Codec
 open HdVerif HdVerif.Bits HdVerif.Gen
 
 /-- numpy dtypes: the property's domain (bool, uint8, uint16, int16) plus neighbours the encoder must
-    keep apart (other widths, floats). -/
-inductive DType | bool | u8 | u16 | u32 | i8 | i16 | i32 | f32 | f64
+    keep apart (other widths up to 64 bits, floats). -/
+inductive DType | bool | u8 | u16 | u32 | u64 | i8 | i16 | i32 | i64 | f32 | f64
   deriving DecidableEq, Repr, Inhabited
 
 namespace DType
 /-- `dtype.kind` -/
 def kind : DType → String
-  | .bool => "b" | .u8 | .u16 | .u32 => "u" | .i8 | .i16 | .i32 => "i" | .f32 | .f64 => "f"
+  | .bool => "b" | .u8 | .u16 | .u32 | .u64 => "u" | .i8 | .i16 | .i32 | .i64 => "i" | .f32 | .f64 => "f"
 /-- `dtype.itemsize` -/
 def itemsize : DType → Nat
-  | .bool | .u8 | .i8 => 1 | .u16 | .i16 => 2 | .u32 | .i32 | .f32 => 4 | .f64 => 8
+  | .bool | .u8 | .i8 => 1 | .u16 | .i16 => 2 | .u32 | .i32 | .f32 => 4 | .u64 | .i64 | .f64 => 8
 /-- `str(dtype)` -/
 def name : DType → String
-  | .bool => "bool" | .u8 => "uint8" | .u16 => "uint16" | .u32 => "uint32" | .i8 => "int8"
-  | .i16 => "int16" | .i32 => "int32" | .f32 => "float32" | .f64 => "float64"
+  | .bool => "bool" | .u8 => "uint8" | .u16 => "uint16" | .u32 => "uint32" | .u64 => "uint64" | .i8 => "int8"
+  | .i16 => "int16" | .i32 => "int32" | .i64 => "int64" | .f32 => "float32" | .f64 => "float64"
 def ofName : String → Option DType
   | "bool" => some .bool | "uint8" => some .u8 | "uint16" => some .u16 | "uint32" => some .u32
+  | "uint64" => some .u64 | "int64" => some .i64
   | "int8" => some .i8 | "int16" => some .i16 | "int32" => some .i32 | "float32" => some .f32
   | "float64" => some .f64 | _ => none
 def signed : DType → Bool
-  | .i8 | .i16 | .i32 => true | _ => false
+  | .i8 | .i16 | .i32 | .i64 => true | _ => false
 def isInt : DType → Bool
   | .f32 | .f64 => false | _ => true
 /-- smallest / largest value of an integer dtype (floats: not used, 0) -/
 def lo : DType → Int
-  | .i8 => -128 | .i16 => -32768 | .i32 => -2147483648 | _ => 0
+  | .i8 => -128 | .i16 => -32768 | .i32 => -2147483648 | .i64 => -9223372036854775808 | _ => 0
 def hi : DType → Int
-  | .bool => 1 | .u8 => 255 | .u16 => 65535 | .u32 => 4294967295 | .i8 => 127 | .i16 => 32767
-  | .i32 => 2147483647 | .f32 | .f64 => 0
+  | .bool => 1 | .u8 => 255 | .u16 => 65535 | .u32 => 4294967295 | .u64 => 18446744073709551615 | .i8 => 127 | .i16 => 32767
+  | .i32 => 2147483647 | .i64 => 9223372036854775807 | .f32 | .f64 => 0
 end DType
 
 structure Frame where
@@ -174,6 +175,7 @@ def decodedDType (bitsAllocated pixelRepresentation : Int) : Except ErrKind DTyp
   else if bitsAllocated = 8 then .ok (if pixelRepresentation = 1 then .i8 else .u8)
   else if bitsAllocated = 16 then .ok (if pixelRepresentation = 1 then .i16 else .u16)
   else if bitsAllocated = 32 then .ok (if pixelRepresentation = 1 then .i32 else .u32)
+  else if bitsAllocated = 64 then .ok (if pixelRepresentation = 1 then .i64 else .u64)
   else .error .value
 
 /-- Python slice with non-negative bounds (negative bounds never arise here and are refused) -/
